@@ -25,6 +25,11 @@
 // 16-bit brute-force tables, wherever it is defined and representable; and agreement of the
 // `long` and `long long` overloads.
 //
+//   vm <fn> <tyN> <tyK> a1 b1 a2 b2 ...   mixed-type call fn(tyN n, tyK k), fn in divceil roundup (the other
+//                    two-argument templates take one type only); every pair of the eight types
+//   sm <fn> <tyN> <tyK>                    the same over S(tyN) x S(tyK), S(w) = powers of two and their neighbours,
+//                    small numbers, the type maximum and its neighbours, max/3, 2*(max/3), max/5 as w-bit patterns;
+//                    answer: R=<u|i><bits> (the function's actual return type, decltype(n + k)) n= skip= h=
 //   pb <off> <hex>   tlx::popcount(const void*, size_t) on the bytes, placed <off> bytes behind an
 //                    8-aligned address in an exactly sized heap block -> number of one bits
 //
@@ -467,6 +472,98 @@ static void do_int(const std::vector<std::string>& t) {
     for (auto& m : s.viols) vh::viol(m);
 }
 
+
+// ---------------------------------------------------------------- mixed-type div_ceil / round_up
+// decltype(n + k) is the result of the usual arithmetic conversions; the oracle works on the
+// mathematical values and checks representability in that type R.
+template <typename TN, typename TK>
+static void evalm(Fn f, uint64_t pa, uint64_t pb, Res& r, unsigned& rbits, bool& rsigned) {
+    typedef typename std::make_unsigned<TN>::type UN;
+    typedef typename std::make_unsigned<TK>::type UK;
+    const TN a = static_cast<TN>(static_cast<UN>(pa));
+    const TK b = static_cast<TK>(static_cast<UK>(pb));
+    typedef decltype(a + b) R;
+    static_assert(std::is_same<decltype(tlx::div_ceil(a, b)), R>::value, "div_ceil returns decltype(n + k)");
+    static_assert(std::is_same<decltype(tlx::round_up(a, b)), R>::value, "round_up returns decltype(n + k)");
+    rbits = 8 * sizeof(R); rsigned = std::is_signed<R>::value;
+    const i128 A = static_cast<i128>(a), B = static_cast<i128>(b);
+    if (A < 0 || B <= 0) return;
+    i128 q = A / B;
+    if (q * B < A) ++q;
+    i128 want = (f == DIVCEIL) ? q : q * B;
+    bool repr = want <= static_cast<i128>(std::numeric_limits<R>::max());
+    if (std::is_signed<R>::value && !repr) return;
+    r.executed = true;
+    if (repr) { r.has_want = true; r.want = want; }
+    r.value = static_cast<i128>((f == DIVCEIL) ? tlx::div_ceil(a, b) : tlx::round_up(a, b));
+}
+typedef void (*EvalM)(Fn, uint64_t, uint64_t, Res&, unsigned&, bool&);
+template <typename TN> static EvalM evalm_row(int k) {
+    switch (k) {
+    case 0: return &evalm<TN, uint8_t>; case 1: return &evalm<TN, int8_t>;
+    case 2: return &evalm<TN, uint16_t>; case 3: return &evalm<TN, int16_t>;
+    case 4: return &evalm<TN, unsigned>; case 5: return &evalm<TN, int>;
+    case 6: return &evalm<TN, unsigned long long>; default: return &evalm<TN, long long>;
+    }
+}
+static EvalM evalm_of(int n, int k) {
+    switch (n) {
+    case 0: return evalm_row<uint8_t>(k); case 1: return evalm_row<int8_t>(k);
+    case 2: return evalm_row<uint16_t>(k); case 3: return evalm_row<int16_t>(k);
+    case 4: return evalm_row<unsigned>(k); case 5: return evalm_row<int>(k);
+    case 6: return evalm_row<unsigned long long>(k); default: return evalm_row<long long>(k);
+    }
+}
+// S(w): the structured w-bit patterns (same list, same order, in lean/TlxVerif/Model/C20Eval.lean)
+static std::vector<uint64_t> structured(unsigned w) {
+    const uint64_t M = w == 64 ? ~0ULL : ((1ULL << w) - 1);
+    std::vector<uint64_t> s;
+    for (unsigned i = 0; i < w; ++i)
+        for (int d = -1; d <= 1; ++d) s.push_back(((1ULL << i) + static_cast<uint64_t>(static_cast<int64_t>(d))) & M);
+    for (uint64_t c : { 3ULL, 5ULL, 7ULL, 10ULL }) s.push_back(c & M);
+    for (uint64_t j = 0; j < 4; ++j) s.push_back(M - j);
+    s.push_back(M / 3); s.push_back(2 * (M / 3)); s.push_back(M / 5);
+    return s;
+}
+static void do_mixed(const std::vector<std::string>& t) {
+    if (t.size() < 4) { vh::answer("bad-op"); return; }
+    Fn f = fn_of(t[1]);
+    const TypeInfo* tn = type_of(t[2]);
+    const TypeInfo* tk = type_of(t[3]);
+    if ((f != DIVCEIL && f != ROUNDUP) || !tn || !tk) { vh::answer("bad-op"); return; }
+    EvalM ev = evalm_of(static_cast<int>(tn - types), static_cast<int>(tk - types));
+    const uint64_t mn = tn->w == 64 ? ~0ULL : ((1ULL << tn->w) - 1), mk = tk->w == 64 ? ~0ULL : ((1ULL << tk->w) - 1);
+    std::vector<std::string> viols;
+    unsigned rbits = 0; bool rsigned = false;
+    auto complain = [&](const Res& r, uint64_t x, uint64_t y) {
+        if (viols.size() < 2 && r.executed && r.has_want && r.value != r.want)
+            viols.push_back(t[1] + " " + t[2] + "," + t[3] + " returns " + show128(r.value) + " definition gives " + show128(r.want) +
+                            " witness: vm " + t[1] + " " + t[2] + " " + t[3] + " " + std::to_string(x) + " " + std::to_string(y));
+    };
+    if (t[0] == "vm") {
+        std::vector<uint64_t> a;
+        for (size_t i = 4; i < t.size(); ++i) { uint64_t v; if (!parse_u64(t[i], v)) { vh::answer("bad-op"); return; } a.push_back(v); }
+        if (a.empty() || a.size() % 2) { vh::answer("bad-op"); return; }
+        for (size_t i = 0; i < a.size(); i += 2) if (a[i] > mn || a[i + 1] > mk) { vh::answer("bad-op"); return; }
+        std::string out;
+        for (size_t i = 0; i < a.size(); i += 2) {
+            Res r; ev(f, a[i], a[i + 1], r, rbits, rsigned);
+            if (!out.empty()) out += ' ';
+            out += r.executed ? show128(r.value) : std::string("-");
+            complain(r, a[i], a[i + 1]);
+        }
+        vh::answer(out);
+    }
+    else if (t[0] == "sm" && t.size() == 4) {
+        Sweep s;
+        for (uint64_t x : structured(tn->w))
+            for (uint64_t y : structured(tk->w)) { Res r; ev(f, x, y, r, rbits, rsigned); s.account(r); complain(r, x, y); }
+        vh::answer(std::string("R=") + (rsigned ? "i" : "u") + std::to_string(rbits) + " n=" + std::to_string(s.n) + " skip=" + std::to_string(s.skip) + " h=" + std::to_string(s.h));
+    }
+    else { vh::answer("bad-op"); return; }
+    for (auto& m : viols) vh::viol(m);
+}
+
 // ---------------------------------------------------------------- Aggregate
 // Values are written as integers or as p/q with q a power of two (exact in double).
 template <typename T>
@@ -601,6 +698,7 @@ int main(int argc, char** argv) {
             else vh::answer("bad-op");
         }
         else if (t[0] == "pb") do_pb(t);
+        else if (t[0] == "vm" || t[0] == "sm") do_mixed(t);
         else do_int(t);
     }
     return 0;
